@@ -542,13 +542,60 @@ class _:
     # General quotients (divisor mantissa != 1): the code rounds 2*floor(N/D)+1 (a sticky bit);
     # that this rounds like N/D itself is the sticky lemma, which the verifier does not decide
     # (attempted with product/cancellation hints: z3 and cvc5 time out).  Bounded stand-in.
-    gaps = [dict(name='general quotient (sticky remainder bit)', clauses=['value'],
-                 cond=lambda s, t: s[1] != 0 and t[1] != 0 and t[1] != 1,
-                 gen='div_inputs')]
+    gaps = []
 
+    # General quotients: the code rounds 2*q+1 (q = floor(N/D), remainder != 0, a sticky bit one place below q).
+    # Sticky lemma, proved here with hints: q has at least prec+5 bits, so the rounding unit 2**n of q is even
+    # and the open interval (q, q+1) that contains N/D holds no rounding boundary and no tie point.
     ghost = {
         ('tsign, tman, texp, tbc = t', 0, 'after'): ['split ssign 0 1', 'split tsign 0 1'],
+        ('quot, rem = divmod(sman << extra, tman)', 0, 'after'): [
+            'g_q = quot', 'g_rem = rem', 'g_E = sexp - texp - extra', 'g_x = extra',
+            # N >= 2**(sbc-1+extra) >= 2**(prec+4+tbc) > (2**(prec+4)) * tman  ==>  q >= 2**(prec+4)
+            'lemma_pow2_add(sbc - 1, g_x)',
+            'lemma_mul_le_r(pow2(sbc - 1), sman, pow2(g_x))',
+            'lemma_pow2_add(prec + 4, tbc)',
+            'lemma_pow2_le(prec + 4 + tbc, sbc - 1 + g_x)',
+            'lemma_mul_le_r(quot + 1, pow2(prec + 4), tman)',
+            'lemma_mul_lt_r(tman, pow2(tbc), pow2(prec + 4))',
+            'assert quot >= pow2(prec + 4)',
+            'lemma_bitlen_ge(quot, prec + 4)',
+            'lemma_bitlen_2x1(quot)',
+        ],
     }
+    post_hints = [
+        'g_n = bitlen(g_q) - prec',
+        'g_P = pow2(g_n)',
+        'g_R = result[1] * pow2(result[2] - g_E - g_n)',
+        'g_sg = xor01(s[0], t[0])',
+        'g_tr = rnd_trunc(rnd, g_sg)',
+        'g_aw = rnd_away(rnd, g_sg)',
+        'g_st = g_rem != 0',
+        # --- remainder != 0: the code rounded 2q+1 with unit 2P at exponent E-1
+        'lemma_pow2_succ(g_n)',
+        'assert implies(g_st, pow2(bitlen(2 * g_q + 1) - prec) == 2 * g_P)',
+        'assert implies(g_st, result[1] * pow2(result[2] - (g_E - 1) - (bitlen(2 * g_q + 1) - prec)) == g_R)',
+        'assert implies(g_st and g_tr, 2 * g_R * g_P <= 2 * g_q + 1 and 2 * g_q + 1 < 2 * g_R * g_P + 2 * g_P)',
+        'assert implies(g_st and g_tr, g_R * g_P <= g_q and g_q + 1 <= g_R * g_P + g_P)',
+        'assert implies(g_st and g_aw, 2 * g_R * g_P - 2 * g_P < 2 * g_q + 1 and 2 * g_q + 1 <= 2 * g_R * g_P)',
+        'assert implies(g_st and g_aw, g_R * g_P - g_P <= g_q and g_q + 1 <= g_R * g_P)',
+        'assert implies(g_st and not g_tr and not g_aw, -2 * g_P <= 4 * g_q + 2 - 4 * g_R * g_P and 4 * g_q + 2 - 4 * g_R * g_P <= 2 * g_P)',
+        'assert implies(g_st and not g_tr and not g_aw, -g_P <= 2 * g_q - 2 * g_R * g_P and 2 * g_q - 2 * g_R * g_P <= g_P - 2)',
+        # --- remainder == 0: the code rounded q itself with unit P at exponent E
+        'assert implies(not g_st and g_tr, g_R * g_P <= g_q and g_q < g_R * g_P + g_P)',
+        'assert implies(not g_st and g_aw, g_R * g_P - g_P < g_q and g_q <= g_R * g_P)',
+        # --- times D (the instances name the products)
+        'lemma_mul_le_r(g_R * g_P, g_q, tman)',
+        'lemma_mul_le_r(g_q + 1, g_R * g_P + g_P, tman)',
+        'lemma_mul_le_r(g_R * g_P - g_P, g_q, tman)',
+        'lemma_mul_le_r(g_q + 1, g_R * g_P, tman)',
+        'lemma_mul_lt_r(g_q, g_R * g_P + g_P, tman)',
+        'lemma_mul_lt_r(g_R * g_P - g_P, g_q, tman)',
+        'lemma_mul_le_r(g_q, g_R * g_P, tman)',
+        'lemma_mul_le_r(-g_P, 2 * g_q - 2 * g_R * g_P, tman)',
+        'lemma_mul_le_r(2 * g_q - 2 * g_R * g_P, g_P - 2, tman)',
+        'lemma_mul_eq(2 * g_q - 2 * g_R * g_P, 2 * g_q - 2 * g_R * g_P, tman)',
+    ]
 
 
 @contract(M + 'mpf_rdiv_int')
